@@ -16,6 +16,7 @@ from .. import rx
 from . import c17_ladder as LD
 from . import c17_printer as PR
 from . import c17_splice as SP
+from . import c17_values as VL
 
 PRINTER = PR.PRINTER
 REWRITER = PR.REWRITER
@@ -47,7 +48,13 @@ EXPLANATION = (
     'BooleanNode.  '
     'R10: no loop of the rewriter / AST interpreter changes the named list it walks.  R11: rewriter_func_kwargs and the typed_kwargs declarations of the '
     'interpreter agree on which keywords are lists.  '
-    'Does NOT decide: against which directory a files() object is resolved when sources are listed (nodes_to_pretty_filelist / IntrospectionFile.to_abs_path: value level); which function calls forward data in the dataflow graph (is_ignored_edge); that an operation unsupported for a keyword type (add on a str/bool keyword, remove on an absent keyword) leaves the call unchanged; '
+    'R12: the entry `default-options set` appends per requested option is the template <requested key> + `=` + <requested value as validate_value returns it>, '
+    'with no text-changing str method, slice or operator on the way (modulo str()).  R13 (must-flow): where add/rm sources joins a string the target already has '
+    '(a `str` runtime value, the value of a StringNode argument) onto a base directory, that base depends on the target parameter.  '
+    'R4 reads functions in a normal form: statement-level calls of small procedures of the module/class are inlined, loops over a constant tuple of '
+    'callables/records are unrolled; R2/R3 read the lexer tables through display splices, module constants and single-return builder helpers.  '
+    'Does NOT decide: what validate_value returns for a requested value, nor how kwargs set converts values (MType*.new_node: value level); that the target-dependent base '
+    'directory of R13 is the *right* directory (only that it is not the same for every target); against which directory a *requested* file name is resolved; against which directory a files() object is resolved when sources are listed (nodes_to_pretty_filelist / IntrospectionFile.to_abs_path: value level); which function calls forward data in the dataflow graph (is_ignored_edge); that an operation unsupported for a keyword type (add on a str/bool keyword, remove on an absent keyword) leaves the call unchanged; '
     'names generated by target_add being valid identifiers; CRLF preservation; dict-form default_options; which node of a dataflow path gives the base directory of a relative source (get_relto), whether option keys need regex escaping, nor that the dataflow DAG selects the right node, nor add/remove round trips, nor printing of statements other than expressions.')
 ASSUMPTIONS = ['str.translate, str.splitlines, str.split and codecs unicode_escape behave as documented in the Python library reference',
                'BaseNode.accept dispatches to visit_<ClassName> of the visitor (checked as an anchor)',
@@ -193,28 +200,14 @@ def r1(ctx: RuleCtx) -> None:
 
 # ---------------------------------------------------------------------------
 # R2
-def _lexer_table(mod: Module, attr: str) -> ast.AST:
-    fn = mod.func('Lexer.__init__')
-    found = None
-    for n in walk_no_nested(fn):
-        if isinstance(n, ast.Assign) and len(n.targets) == 1 and attr_chain(n.targets[0]) == f'self.{attr}':
-            found = n.value
-    if found is None:
-        raise Undecided(f'Lexer.__init__ does not assign self.{attr}')
-    return found
-
-
 def token_regex(ctx: RuleCtx, mod: Module, tid: str) -> Regex:
-    spec = _lexer_table(mod, 'token_specification')
-    if not isinstance(spec, ast.List):
-        raise Undecided('Lexer.token_specification is not a list literal')
-    for el in spec.elts:
-        if isinstance(el, ast.Tuple) and len(el.elts) == 2 and isinstance(el.elts[0], ast.Constant) and el.elts[0].value == tid:
-            r = fold_expr(ctx.repo, mod, el.elts[1])
-            if not isinstance(r, Regex):
-                raise Undecided(f'token {tid}: not a compiled regex')
-            return r
-    raise Undecided(f'Lexer.token_specification has no token {tid!r}')
+    spec = SP.lexer_token_spec(mod)      # the ordered (id, pattern) table however it is put together (display, spliced constants, builder helper)
+    if tid not in spec:
+        raise Undecided(f'Lexer.token_specification has no token {tid!r}')
+    r = fold_expr(ctx.repo, mod, spec[tid])
+    if not isinstance(r, Regex):
+        raise Undecided(f'token {tid}: not a compiled regex')
+    return r
 
 
 def _nfa_full(nfa: rx.NFA, text: str) -> bool:
@@ -804,4 +797,6 @@ RULES = [
     Rule('C17.R9', 'a requested value given as text is not made a boolean by truthiness', SP.r9),
     Rule('C17.R10', 'a list is not changed while a loop walks over it', SP.r10),
     Rule('C17.R11', 'rewriter keyword types agree with the interpreter keyword declarations on list-ness', SP.r11),
+    Rule('C17.R12', 'default-options set writes <key>=<value> with the requested key and the validated value verbatim', VL.r12),
+    Rule('C17.R13', 'sources a target already has are resolved against a directory that depends on the target', VL.r13),
 ]
